@@ -534,13 +534,18 @@ def noise_env():
     return dict(unknown_env(), **e)
 
 
-def limited(argv, nofile=None, as_nobody=False):
+def limited(argv, nofile=None, as_nobody=False, one_cpu=False):
     """argv wrapped so that it runs under a lowered open-file limit and/or as an unprivileged user that owns nothing
     (uid/gid 65534; only when this process is root and setpriv exists, otherwise unchanged). Platform limits are part of
     "every input": a command that keeps one descriptor per listed file or per tracker, or that opens content in a way only
     its owner may, works in every test and fails on a large torrent or a shared download directory (seeded changes C02-10,
     C02-11, C03-11, C12-11)."""
     argv = list(argv)
+    if one_cpu and shutil.which("taskset"):
+        # the process may run on one CPU only (a 1-vCPU container, a cpuset): std::thread::available_parallelism() answers 1
+        # (added after seeded change C01-15: a pool of `cores - 1` hashing threads, i.e. none)
+        cpu = sorted(os.sched_getaffinity(0))[-1] if hasattr(os, "sched_getaffinity") else 0
+        argv = ["taskset", "-c", str(cpu)] + argv
     if as_nobody and can_drop_privileges():
         argv = ["setpriv", "--reuid=65534", "--regid=65534", "--clear-groups"] + argv
     if nofile:
@@ -577,14 +582,14 @@ def can_drop_privileges():
     return os.geteuid() == 0 and shutil.which("setpriv") is not None
 
 
-def run_cmd(argv, cwd=None, stdin=b"", env=None, timeout=60, nofile=None, as_nobody=False):
+def run_cmd(argv, cwd=None, stdin=b"", env=None, timeout=60, nofile=None, as_nobody=False, one_cpu=False):
     """Run the real binary (or anything): (returncode, stdout bytes, stderr bytes). A negative
     returncode is a terminating signal."""
     e = {"PATH": os.environ.get("PATH", ""), "RUST_BACKTRACE": "0"}
     e.update(noise_env())
     if env:
         e.update(env)
-    argv = limited(argv, nofile, as_nobody)
+    argv = limited(argv, nofile, as_nobody, one_cpu)
     if cwd is not None and "PWD" not in e:
         cwd = logical_cwd(cwd)
         e["PWD"] = os.fsdecode(cwd)
@@ -826,9 +831,9 @@ class Ctx:
     def model(self, lines, nproc=NCPU, timeout=1200):
         return run_lines(self.modelrun, lines, nproc, timeout, big_stack=True)
 
-    def imdl(self, args, cwd=None, stdin=b"", env=None, timeout=60, nofile=None, as_nobody=False):
+    def imdl(self, args, cwd=None, stdin=b"", env=None, timeout=60, nofile=None, as_nobody=False, one_cpu=False):
         return run_cmd([self.bins["imdl"]] + list(args), cwd=cwd, stdin=stdin, env=env, timeout=timeout,
-                       nofile=nofile, as_nobody=as_nobody)
+                       nofile=nofile, as_nobody=as_nobody, one_cpu=one_cpu)
 
     # -- finish ------------------------------------------------------------
     def finish(self, rule, trusted_base, level="proof", exhaustive=False, extra=None):
